@@ -1,0 +1,134 @@
+//go:build verif
+
+package app
+
+import (
+	"sync/atomic"
+	"time"
+
+	"github.com/f1bonacc1/process-compose/src/command"
+	"github.com/f1bonacc1/process-compose/src/pclog"
+	"github.com/f1bonacc1/process-compose/src/types"
+)
+
+// VerifHooks is installed by the verification harness (/verif/harness). Every field may be nil.
+type VerifHooks struct {
+	// Commander, when it returns non-nil, replaces the OS command of a process launch.
+	Commander func(p *Process) command.Commander
+	// Point receives every trace point; it may block (park) the calling goroutine.
+	Point func(p *Process, r *ProjectRunner, label string, args []interface{})
+	// Backoff may replace the restart back-off (seconds as computed by getBackoff).
+	Backoff func(p *Process, seconds int) (time.Duration, bool)
+}
+
+var verifHooks atomic.Pointer[VerifHooks]
+
+func SetVerifHooks(h *VerifHooks) { verifHooks.Store(h) }
+
+func verifPoint(p *Process, label string, args ...interface{}) {
+	if h := verifHooks.Load(); h != nil && h.Point != nil {
+		h.Point(p, nil, label, args)
+	}
+}
+
+func verifPointR(r *ProjectRunner, label string, args ...interface{}) {
+	if h := verifHooks.Load(); h != nil && h.Point != nil {
+		h.Point(nil, r, label, args)
+	}
+}
+
+func verifCommander(p *Process) command.Commander {
+	if h := verifHooks.Load(); h != nil && h.Commander != nil {
+		return h.Commander(p)
+	}
+	return nil
+}
+
+func verifBackoff(p *Process, seconds int) (time.Duration, bool) {
+	if h := verifHooks.Load(); h != nil && h.Backoff != nil {
+		return h.Backoff(p, seconds)
+	}
+	return 0, false
+}
+
+// ---- read-only accessors and direct event delivery used by the harness ----
+
+func (p *Process) VerifName() string               { return p.getName() }
+func (p *Process) VerifConf() *types.ProcessConfig { return p.procConf }
+func (p *Process) VerifExecutable() string         { return p.procConf.Executable }
+func (p *Process) VerifArgs() []string             { return p.mergeExtraArgs() }
+func (p *Process) VerifStatus() string             { return p.procState.Status }
+func (p *Process) VerifIsStoppedFlag() bool        { return p.isStopped.Load() }
+func (p *Process) VerifHasReadyProber() bool       { return p.readyProber != nil }
+func (p *Process) VerifHasLiveProber() bool        { return p.liveProber != nil }
+func (p *Process) VerifEnvironment() []string      { return p.getProcessEnvironment() }
+func (p *Process) VerifIsRestartable() bool        { return p.isRestartable() }
+func (p *Process) VerifLogPath() string            { return p.getLogPath() }
+
+// VerifReadinessResult delivers a readiness probe result exactly as health.Prober would.
+func (p *Process) VerifReadinessResult(ok, fatal bool, err string) {
+	p.onReadinessCheckEnd(ok, fatal, err)
+}
+
+// VerifLivenessResult delivers a liveness probe result exactly as health.Prober would.
+func (p *Process) VerifLivenessResult(ok, fatal bool, err string) {
+	p.onLivenessCheckEnd(ok, fatal, err)
+}
+
+func (p *ProjectRunner) VerifRunning() map[string]*Process {
+	p.runProcMutex.Lock()
+	defer p.runProcMutex.Unlock()
+	res := make(map[string]*Process, len(p.runningProcesses))
+	for k, v := range p.runningProcesses {
+		res[k] = v
+	}
+	return res
+}
+
+func (p *ProjectRunner) VerifDone() map[string]*Process {
+	p.doneProcMutex.Lock()
+	defer p.doneProcMutex.Unlock()
+	res := make(map[string]*Process, len(p.doneProcesses))
+	for k, v := range p.doneProcesses {
+		res[k] = v
+	}
+	return res
+}
+
+func (p *ProjectRunner) VerifProject() *types.Project { return p.project }
+func (p *ProjectRunner) VerifExitCode() int           { return p.exitCode }
+func (p *ProjectRunner) VerifProcessLogNames() []string {
+	p.logsMutex.Lock()
+	defer p.logsMutex.Unlock()
+	res := make([]string, 0, len(p.processLogs))
+	for k := range p.processLogs {
+		res = append(res, k)
+	}
+	return res
+}
+func (p *ProjectRunner) VerifProcessStateNames() []string {
+	p.statesMutex.Lock()
+	defer p.statesMutex.Unlock()
+	res := make([]string, 0, len(p.processStates))
+	for k := range p.processStates {
+		res = append(res, k)
+	}
+	return res
+}
+func (p *ProjectRunner) VerifProcessLogBuffer(name string) *pclog.ProcessLogBuffer {
+	p.logsMutex.Lock()
+	defer p.logsMutex.Unlock()
+	return p.processLogs[name]
+}
+
+// VerifNewProcess builds a Process the way runProcess does, without registering or starting it.
+func VerifNewProcess(conf *types.ProcessConfig, state *types.ProcessState, globalEnv []string) *Process {
+	return NewProcess(
+		withGlobalEnv(globalEnv),
+		withLogger(pclog.NewNilLogger()),
+		withProcConf(conf),
+		withProcState(state),
+		withProcLog(pclog.NewLogBuffer(100)),
+		withShellConfig(*command.DefaultShellConfig()),
+	)
+}
